@@ -3,7 +3,7 @@
      jug/backends/file_keepalive_monitor.py   main():  sleep(5) ; counter = counter_start = 60
      jug/backends/file_store.py               file_keepalive_based_lock.is_failed:  st_mtime <= time() - 1800
                                               file_based_lock._FAILED_TIMESTAMP = (1, 1)
-   Structure facts checked by the translator (AST templates, anything else is a translator failure):
+   Shapes the model was transcribed from (compared leniently, see harness/translate_c19.py; behaviour is tied by C19's runs):
      loop order  sleep ; parent_gone_or_changed -> break ; counter -= 1 ; if counter <= 0: reset, utime(lock, None),
      OSError -> break ;  parent_gone_or_changed = (getppid() != pid or == 1) or kill(pid, 0) raises OSError ;
      is_failed = is_locked() and st_mtime <= time() - expiry ;  file_based_lock.fail() = os.utime(fullname, _FAILED_TIMESTAMP) ;
